@@ -9,7 +9,22 @@
 //    (time passes by dt, the named registered objects are reported with the given native bits);
 //    when the script is exhausted "another thread" calls Server::interrupt().  The event
 //    descriptor is reported whenever it is readable (level triggered), queried from the real
-//    descriptor.
+//    descriptor.  Round 5:
+//    - like the real call it returns AS MANY events as the caller asks for: at most maxevents-1
+//      sockets (one entry stays free for the event descriptor); an item marked `+` ("<dt>+:…")
+//      continues the previous one (sockets that were ready at the same moment): a call with room
+//      left takes it in the same call.  The generators cut a crowd of ready sockets into a first
+//      item of 63 and `+` items, which is what a caller with a 64-entry array gets from the kernel;
+//      a caller that asks for more gets more (and ASan sees the overflow of its array);
+//    - an item marked `!` ("<dt>!") is a signal handled while the loop waits: -1/EINTR after dt
+//      (only when nothing is ready - otherwise the call returns what is ready, as the real one);
+//    - a negative time-out with nothing ready would block without limit: `! hang …`;
+//    - LEVEL TRIGGERED: a socket that was reported with bits inside its interest stays ready until
+//      the loop does something with it (send/recv/accept/SO_ERROR on the descriptor, a callback of
+//      the client, a change of its registration); whatever is still ready at the next epoll_wait is
+//      reported again (`rereport <name>`), and when the script has run out the interrupt of the
+//      other thread is held back for up to 3 such calls (`item rereport`).  The unchanged code
+//      dispatches every reported socket before it waits again, so none of this shows in its log.
 //  * send/recv on client descriptors, accept4 on listener descriptors, SO_ERROR on establisher
 //    descriptors are answered from scripted queues (defaults: send everything, would block,
 //    accept, no error).  An accepted connection is one end of a fresh socket pair.
@@ -77,7 +92,7 @@ static void resolve()
 }
 
 #define MAXFD 4096
-struct FdInfo { char kind; long id; int registered; unsigned mask; epoll_data_t data; };
+struct FdInfo { char kind; long id; int registered; unsigned mask; epoll_data_t data; unsigned sticky; };
 static FdInfo fds[MAXFD];
 
 static slk_emit_fn emit_cb; static slk_peek_fn peek_cb; static slk_announce_fn announce_cb; static slk_foreign_fn foreign_cb; static slk_now_fn now_cb;
@@ -87,9 +102,9 @@ static int evfd = -1;
 static char exp_kind = 0; static long exp_id = 0;
 
 struct Ready { char kind; long id; unsigned bits; };
-struct Item { long long dt; int n; Ready r[64]; };
+struct Item { long long dt; int n; int cont, eintr; Ready r[64]; };
 #define MAXITEMS 512
-static Item items[MAXITEMS]; static int nitems = 0, curitem = 0;
+static Item items[MAXITEMS]; static int nitems = 0, curitem = 0, curpos = 0, drains = 0;
 
 struct Out { int kind; long k; };
 #define QCAP 1024
@@ -115,7 +130,7 @@ extern "C" void slk_reset(slk_emit_fn emit, slk_peek_fn peek, slk_announce_fn an
   emit_cb = emit; peek_cb = peek; announce_cb = announce; foreign_cb = foreign; now_cb = now;
   memset(fds, 0, sizeof(fds));
   armed = 0; in_run = 0; depth = 0; connect_mode = 0; vclock = 0; last_now = 0; evfd = -1; exp_kind = 0;
-  nitems = curitem = 0;
+  nitems = curitem = curpos = drains = 0;
   sendq.h = sendq.t = recvq.h = recvq.t = acceptq.h = acceptq.t = connq.h = connq.t = 0;
   for(int i = 0; i < npeers; ++i) close(peers[i]);
   npeers = 0;
@@ -128,14 +143,16 @@ extern "C" void slk_in_run(int on) { in_run = on; }
 extern "C" void slk_depth(int delta) { depth += delta; }
 extern "C" void slk_expect(char kind, long id) { exp_kind = kind; exp_id = id; }
 extern "C" void slk_connect_mode(int on) { connect_mode = on; }
-extern "C" void slk_script_clear() { nitems = curitem = 0; }
+extern "C" void slk_script_clear() { nitems = curitem = curpos = drains = 0; }
 extern "C" int slk_script_add(const char* tok)
 {
   if(nitems >= MAXITEMS) return 0;
   Item& it = items[nitems];
-  it.n = 0;
+  it.n = 0; it.cont = it.eintr = 0;
   char* end = 0;
   it.dt = strtoll(tok, &end, 10);
+  if(*end == '+') { it.cont = 1; ++end; }
+  if(*end == '!') { it.eintr = 1; ++end; }
   if(*end == ':') {
     const char* p = end + 1;
     while(*p) {
@@ -185,6 +202,20 @@ extern "C" size_t slk_reg_dump(char* buf, size_t cap)
   return len;
 }
 
+// python/Coq mirror of Socket::Poll::unmapEvents on the registrations a Server makes: is anything of `native` inside the interest `mask`?
+static int inside_interest(unsigned native, unsigned mask)
+{
+  int rd = (mask & EPOLLIN) != 0, wr = (mask & EPOLLOUT) != 0, r = 0;
+  if((native & (EPOLLIN | EPOLLRDHUP | EPOLLHUP)) && rd) r = 1;
+  if(((native & EPOLLOUT) || (!r && (native & (EPOLLRDHUP | EPOLLHUP)))) && wr) r = 1;
+  return r;
+}
+static void unstick(int fd) { if(fd >= 0 && fd < MAXFD) fds[fd].sticky = 0; }
+extern "C" void slk_touch(char kind, long id)
+{
+  for(int fd = 0; fd < MAXFD; ++fd) if(fds[fd].kind == kind && fds[fd].id == id) fds[fd].sticky = 0;
+}
+
 static unsigned native_of(unsigned bits)
 {
   unsigned n = 0;
@@ -226,6 +257,7 @@ extern "C" int epoll_ctl(int epfd, int op, int fd, struct epoll_event* ev)
   char name[32];
   if(op == EPOLL_CTL_ADD) {
     if(exp_kind) { f.kind = exp_kind; f.id = exp_id; exp_kind = 0; f.registered = 0; }
+    f.sticky = 0;
     name_of(fd, name, sizeof(name));
     if(f.registered) emitf("! ctl add of a registered descriptor %s", name);
     emitf("ctl add %s %u", name, ev->events);
@@ -233,11 +265,11 @@ extern "C" int epoll_ctl(int epfd, int op, int fd, struct epoll_event* ev)
   } else if(op == EPOLL_CTL_MOD) {
     name_of(fd, name, sizeof(name));
     emitf("ctl mod %s %u", name, ev->events);
-    f.mask = ev->events; f.data = ev->data;
+    f.mask = ev->events; f.data = ev->data; f.sticky = 0;
   } else {
     name_of(fd, name, sizeof(name));
     emitf("ctl del %s 0", name);
-    f.registered = 0; f.mask = 0;
+    f.registered = 0; f.mask = 0; f.sticky = 0;
   }
   int rc = real_epoll_ctl(epfd, op, fd, ev);
   if(rc != 0) emitf("! epoll_ctl failed errno=%d", errno);
@@ -294,6 +326,14 @@ extern "C" void freeaddrinfo(struct addrinfo* ai)
   real_freeaddrinfo(ai);
 }
 
+static int report(struct epoll_event* events, int m, int fd, unsigned native)
+{
+  events[m].events = native;
+  events[m].data = fds[fd].data;
+  if(inside_interest(native, fds[fd].mask)) fds[fd].sticky = native;
+  return m + 1;
+}
+
 extern "C" int epoll_wait(int epfd, struct epoll_event* events, int maxevents, int timeout)
 {
   resolve();
@@ -302,28 +342,55 @@ extern "C" int epoll_wait(int epfd, struct epoll_event* events, int maxevents, i
     return real_epoll_wait(epfd, events, maxevents, timeout);
   emitf("wait %d", timeout);
   int m = 0;
+  int cap = maxevents - 1;            // one entry stays free for the event descriptor
+  static unsigned char reported[MAXFD];
+  memset(reported, 0, sizeof(reported));
+  int still = 0;
+  for(int fd = 0; fd < MAXFD; ++fd) if(fds[fd].sticky && fds[fd].registered) ++still;
   if(curitem < nitems) {
-    Item& it = items[curitem++];
-    emitf("item script");
-    vclock += it.dt;
-    for(int i = 0; i < it.n && m < maxevents - 1; ++i) {
-      for(int fd = 0; fd < MAXFD; ++fd)
-        if(fds[fd].registered && fds[fd].kind == it.r[i].kind && fds[fd].id == it.r[i].id) {
-          events[m].events = native_of(it.r[i].bits);
-          events[m].data = fds[fd].data;
-          ++m;
-          break;
-        }
+    Item* it = &items[curitem];
+    emitf(curpos == 0 ? "item script" : "item more");     // more: the rest of an item that did not fit into the caller's array
+    if(curpos == 0) vclock += it->dt;
+    if(it->eintr && !still && !slk_evfd_readable()) {   // a signal handler ran while the loop waited
+      ++curitem; curpos = 0;
+      errno = EINTR;
+      return -1;
     }
+    for(;;) {
+      for(; curpos < it->n && m < cap; ++curpos) {
+        for(int fd = 0; fd < MAXFD; ++fd)
+          if(fds[fd].registered && fds[fd].kind == it->r[curpos].kind && fds[fd].id == it->r[curpos].id) {
+            m = report(events, m, fd, native_of(it->r[curpos].bits));
+            reported[fd] = 1;
+            break;
+          }
+      }
+      if(curpos < it->n) break;                          // the caller's array is full: the rest with the next call
+      ++curitem; curpos = 0;
+      if(curitem < nitems && items[curitem].cont && m < cap) { it = &items[curitem]; vclock += it->dt; continue; }
+      break;
+    }
+  } else if(still && drains < 3) {
+    ++drains;
+    emitf("item rereport");
   } else {
     emitf("item foreign");
     if(foreign_cb) foreign_cb();
   }
+  // level triggered: what was reported and has not been touched since is still ready
+  for(int fd = 0; fd < MAXFD && m < cap; ++fd)
+    if(fds[fd].sticky && fds[fd].registered && !reported[fd]) {
+      char name[32]; name_of(fd, name, sizeof(name));
+      emitf("rereport %s", name);
+      m = report(events, m, fd, fds[fd].sticky);
+    }
   if(slk_evfd_readable() && m < maxevents) {
     events[m].events = EPOLLIN;
     events[m].data.ptr = 0;
     ++m;
   }
+  if(m == 0 && timeout < 0)
+    emitf("! hang: epoll_wait with the negative time-out %d blocks without limit (nothing is ready, nobody interrupts)", timeout);
   return m;
 }
 
@@ -333,6 +400,7 @@ extern "C" ssize_t send(int fd, const void* data, size_t n, int flags)
   if(!armed || fd < 0 || fd >= MAXFD || fds[fd].kind != 'c')
     return real_send(fd, data, n, flags);
   Out o; long r;
+  unstick(fd);
   if(!q_pop(sendq, o)) { o.kind = 2; o.k = (long)n; }
   const char* who = depth == 0 ? "d" : "w";
   if(o.kind == 0) { emitf("send c%ld %zu -1 %s", fds[fd].id, n, who); errno = EAGAIN; return -1; }
@@ -348,6 +416,7 @@ extern "C" ssize_t recv(int fd, void* data, size_t n, int flags)
   if(!armed || fd < 0 || fd >= MAXFD || fds[fd].kind != 'c')
     return real_recv(fd, data, n, flags);
   Out o;
+  unstick(fd);
   if(!q_pop(recvq, o)) { o.kind = 0; o.k = 0; }
   if(o.kind == 0) { emitf("recv c%ld -1", fds[fd].id); errno = EAGAIN; return -1; }
   if(o.kind == 1) { emitf("recv c%ld -2", fds[fd].id); errno = ECONNRESET; return -1; }
@@ -365,6 +434,7 @@ extern "C" int accept4(int fd, struct sockaddr* addr, socklen_t* len, int flags)
   if(!armed || fd < 0 || fd >= MAXFD || fds[fd].kind != 'l')
     return real_accept4(fd, addr, len, flags);
   Out o; int ok = 1;
+  unstick(fd);
   if(q_pop(acceptq, o)) ok = o.kind;
   long newid = -1;
   if(ok) { newid = peek_cb ? peek_cb('l', fds[fd].id) : -1; if(newid < 0) ok = 0; }
@@ -398,6 +468,7 @@ extern "C" int getsockopt(int fd, int level, int optname, void* optval, socklen_
   if(!armed || fd < 0 || fd >= MAXFD || fds[fd].kind != 'e' || level != SOL_SOCKET || optname != SO_ERROR)
     return real_getsockopt(fd, level, optname, optval, optlen);
   Out o; long err = 0;
+  unstick(fd);
   if(q_pop(connq, o)) err = o.k;
   long newid = -1;
   if(err == 0) { newid = peek_cb ? peek_cb('e', fds[fd].id) : -1; if(newid < 0) err = 111; }
